@@ -161,3 +161,22 @@ pub fn gen_soup(rng: &mut Rng, n: usize) -> Vec<char> {
     }
     out
 }
+
+/// A long document: a top-level array (or object) of generated sub-documents, about `target` characters.
+pub fn gen_big_doc(rng: &mut Rng, target: usize) -> Vec<char> {
+    let obj = rng.chance(1, 3);
+    let mut out: Vec<char> = vec![if obj { '{' } else { '[' }];
+    let mut i = 0usize;
+    while out.len() < target {
+        if i > 0 { out.push(','); if rng.chance(1, 3) { out.push(if rng.chance(1, 2) { ' ' } else { '\n' }); } }
+        if obj { out.push('"'); out.extend(format!("k{}", i % 97).chars()); out.push('"'); out.push(':'); }
+        let mut k = Knobs::draw(rng, 200);
+        k.huge_tokens = false; k.wide = false;
+        let d = gen_doc(rng, &k);
+        // sub-documents carry their own surrounding whitespace; that is fine inside a container
+        out.extend(d);
+        i += 1;
+    }
+    out.push(if obj { '}' } else { ']' });
+    out
+}
